@@ -5,8 +5,9 @@
 // harness still builds and falls back to a key made of public observations (Position(), Length(), content read through
 // the public API). The fallback key is coarser - states that differ only in hidden flags are merged, which can only
 // lose exploration, never raise an alarm - and the evidence records it (counter `binding/fallback-keys`).
-// HuffLZ / BitStreamReader / AdaptiveHuffmanTree private state (C04, C15) has no public equivalent: renaming those
-// members stops the build of C04/C15 with HARNESS-BUILD-FAILURE (exit 2), a loud harness failure, never a silent pass.
+// HuffLZ / BitStreamReader / AdaptiveHuffmanTree private state (C04, C15), the protected sort helpers of ArchiveFile (C19),
+// Map::GetTileIndex (C16) and Map::WriteContainerSize (C20) are detected the same way inside those checks, each with a
+// public fallback (refactors/zz1 renames all of them at once and every check still builds and stays silent).
 #pragma once
 #include "Stream/MemoryReader.h"
 #include "Stream/FileReader.h"
